@@ -36,6 +36,47 @@ WRAPPING = ["*<impl core::ops::arith::Add for ruint::Uint<BITS, LIMBS>>::add",
             "*<impl ruint::Uint<BITS, LIMBS>>::as_limbs", "*<impl ruint::Uint<BITS, LIMBS>>::into_limbs"]
 
 
+def _width_var_value(R, body, name):
+    """`{remainder:0width$}` with `let width = usize::from(POWER)` / `POWER as usize` / a literal: the value of that variable when its
+    single definition is a lossless conversion of a constant, else None"""
+    import re
+    prep(body)
+    locs = Taint(body).var_locals(name.strip())
+    if len(locs) != 1:
+        return None
+    l = next(iter(locs))
+    for _ in range(4):
+        defs = [("s", s_["rv"]) for b in body.blocks if not b["cleanup"] for s_ in b["stmts"] if s_["d"] == [l]] + \
+               [("c", b["term"]) for b in body.blocks if not b["cleanup"] and b["term"]["k"] == "call" and b["term"].get("d") == [l]]
+        if len(defs) != 1:
+            return None
+        k, d = defs[0]
+        if k == "c":
+            nm = d.get("ncallee") or ""
+            if not (nm.endswith(">::from") and "core::convert::num::" in nm) or len(d["args"]) != 1:
+                return None          # only the lossless integer `From` conversions
+            o = d["args"][0]
+        else:
+            if d["k"] == "use":
+                o = d["a"]
+            elif d["k"] == "cast" and len(d.get("ops", [d.get("a")])) >= 1:
+                o = d.get("a") or d["ops"][0]
+            else:
+                return None
+        if o[0] == "c":
+            txt = o[1]
+            m = re.match(r"^(?:const )?(-?\d+)(?:_[iu]\w+)?$", txt)
+            if m:
+                return int(m.group(1))
+            v = R.F.consts.get(txt.replace("const ", "").strip())
+            return int(v["value"]) if v and v.get("value") is not None else None
+        if o[0] in ("cp", "mv") and len(o[1]) == 1:
+            l = o[1][0]
+            continue
+        return None
+    return None
+
+
 def run(R):
     F = R.F
     # (1) constants
@@ -55,7 +96,8 @@ def run(R):
             if len(phs) == 2 and lits == ["."]:
                 frac = phs[1]
                 w = frac["width"]
-                width_ok = (w == power) or (isinstance(w, dict) and "TOKEN_TO_RAW_POWER_OF_10_CONVERSION" in f["args"][w["arg"]]["src"])
+                width_ok = (w == power) or (isinstance(w, dict) and "TOKEN_TO_RAW_POWER_OF_10_CONVERSION" in f["args"][w["arg"]]["src"]) \
+                    or (isinstance(w, dict) and _width_var_value(R, disp, f["args"][w["arg"]]["src"]) == power)
                 unit_plain = phs[0]["width"] is None and phs[0]["precision"] is None
                 if width_ok and frac["zero_pad"] and frac["precision"] is None and frac["trait"] == "Display" and unit_plain \
                         and frac["arg"] != phs[0]["arg"] and f["args"][frac["arg"]]["src"] != f["args"][phs[0]["arg"]]["src"]:
@@ -104,13 +146,40 @@ def run(R):
     # discharged its overflow assert by the dominating comparison)
     from flow import callee_matches
     fs_bodies = F.item(FROM_STR)
-    has_checked = any(callee_matches(c, ["core::num::<impl u64>::checked_sub"]) for b in fs_bodies for c in b.calls)
-    ok_sub = has_checked
+    # any integer width will do — but the fraction's length must reach the subtraction un-narrowed: `len as u8` wraps at 256 digits, so a
+    # fraction of 256 + k digits passes the precision test as one of k digits
+    INT_SUB = ["core::num::<impl u%s>::checked_sub" % w for w in ("8", "16", "32", "64", "128", "size")]
+    has_checked, narrowed = False, None
+    for b in fs_bodies:
+        prep(b)
+        for blk in b.blocks:
+            t = blk["term"]
+            if t["k"] != "call" or blk["cleanup"] or not callee_matches(t, INT_SUB) or len(t["args"]) < 2:
+                continue
+            has_checked = True
+            l = op_local(t["args"][1])
+            for _ in range(8):
+                if l is None:
+                    break
+                ds = [s_["rv"] for x in b.blocks if not x["cleanup"] for s_ in x["stmts"] if s_["d"] == [l]]
+                if len(ds) != 1 or ds[0]["k"] not in ("use", "cast") or ds[0]["a"][0] not in ("cp", "mv") or len(ds[0]["a"][1]) != 1:
+                    break
+                src = ds[0]["a"][1][0]
+                if ds[0]["k"] == "cast":
+                    tf, tt_ = b.locals.get(str(src), ""), b.locals.get(str(l), "")
+                    bits = {"u8": 8, "i8": 8, "u16": 16, "i16": 16, "u32": 32, "i32": 32, "u64": 64, "i64": 64, "usize": 64, "isize": 64, "u128": 128, "i128": 128}
+                    if tf in bits and tt_ in bits and bits[tt_] < bits[tf]:
+                        narrowed = (tf, tt_, ds[0].get("l") or t.get("l"))
+                l = src
+    if narrowed:
+        R.viol("C16.parse.checked_sub", "length-narrowed:%s->%s" % narrowed[:2], "from_str narrows the fraction's length (%s as %s) before 18 - len: a fraction of 2^%s + k digits passes the precision "
+               "test as one of k digits" % (narrowed[0], narrowed[1], narrowed[1].lstrip("ui")), fs_bodies[0], fs_bodies[0].lines[0])
+    ok_sub = has_checked and not narrowed
     if not has_checked:
         import panics as PN
         subs = [(b, a_) for b in fs_bodies for a_ in PN.panic_sites(F, b) if a_["kind"].startswith("assert:Overflow(Sub")]
         ok_sub = bool(subs) and all(PN.sub_guarded(F, b, a_)[0] for b, a_ in subs)
-    if not ok_sub:
+    if not ok_sub and not narrowed:
         R.viol("C16.parse.checked_sub", "missing-call:from_str!checked_sub", "from_str computes 18 - len(fraction) neither with checked_sub nor behind a comparison that refuses a longer fraction (LossOfPrecision)", fs_bodies[0] if fs_bodies else None, fs_bodies[0].lines[0] if fs_bodies else None)
     R.inst("C16.parse.checked_sub", "K1 must-call", "18 - len(fraction) cannot underflow (checked_sub, or guarded subtraction)", 1, ok_sub)
     decimal_only(R)
